@@ -8,7 +8,7 @@ ID = 'C18'
 DOMAIN = 'sched'
 PROPS_FILES = ['Gin/Props/C18.lean', 'Gin/Props/C18b.lean']
 ANCHOR_FILES = ['config.py']
-RULE = ('2-4 real threads, each with a program of 2-5 actions from {use singleton key k (first or repeated use; one key\'s constructor returns None), call a '
+RULE = ('[sequential histories of singleton uses interleaved with clear_config(clear_constants in {False, True}) against the Machine mirror] 2-4 real threads, each with a program of 2-5 actions from {use singleton key k (first or repeated use; one key\'s constructor returns None), call a '
         'configurable under a scope (updating the operative record), read operative_config_str()}; the singleton table, the '
         'operative record and the locks of gin.config are replaced by instrumented objects with a scheduling point before '
         'every access, and a deterministic baton scheduler follows a random schedule (quick) or enumerates all schedules '
@@ -49,7 +49,20 @@ def gen_case(rng, nthreads=None):
   return {'dom': 'sched', 'threads': threads, 'schedule': sched}
 
 
+def gen_history(rng):
+  """One thread: uses of a few scope names interleaved with both kinds of clear_config."""
+  ops = []
+  for _ in range(rng.randint(4, 12)):
+    if rng.random() < 0.3:
+      ops.append({'op': 'clear', 'constants': rng.random() < 0.5})
+    else:
+      ops.append({'op': 'singleton', 'key': rng.choice(['s1', 's2', 'a/s1']), 'ctor': rng.random() < 0.85})
+  return {'dom': 'gin', 'ops': ops}
+
+
 def gen_cases(rng, tier, boost=1):
+  for _ in range((150 if tier == 'quick' else 4000) * boost):
+    yield gen_history(rng)
   n = (250 if tier == 'quick' else 6000) * boost
   for _ in range(n):
     yield gen_case(rng)
@@ -253,6 +266,9 @@ def do_action(gin, fns, act, counts, log):
 
 
 def run_impl(case):
+  if case['dom'] == 'gin':
+    import gindom
+    return gindom.run_impl(case)
   gin = core.fresh_gin()
   n = len(case['threads'])
   sched = Sched(n, case['schedule'])
@@ -311,10 +327,16 @@ def run_impl(case):
 
 
 def to_driver(case, impl):
+  if case['dom'] == 'gin':
+    import gindom
+    return gindom.to_driver(case, impl)
   return {'dom': 'sched', 'threads': case['threads'], 'schedule': case['schedule']}
 
 
 def compare(case, impl, model):
+  if case['dom'] == 'gin':
+    import gindom
+    return gindom.compare(case, impl, model)
   if 'counts' not in model:
     return f'driver error: {model}'
   if impl['counts'] != model['counts']:
@@ -323,6 +345,24 @@ def compare(case, impl, model):
 
 
 def oracle(case, impl):
+  if case['dom'] == 'gin':
+    cache, built = {}, 0
+    for k, (op, res) in enumerate(zip(case['ops'], impl['out'])):
+      if op['op'] == 'clear':
+        cache = {}      # either kind of clear forgets every singleton
+        continue
+      key = op['key']
+      if key in cache:
+        want = {'ok': cache[key]}
+      elif op['ctor']:
+        want = {'ok': {'o': 7000 + built}}
+        cache[key] = want['ok']
+        built += 1
+      else:
+        want = {'err': 'ValueError'}
+      if res != want:
+        return f'op {k} {op}: expected {want} (cache {cache}, {built} constructions so far), got {res}'
+    return None
   for tid, e in enumerate(impl['errors']):
     if e:
       return f'thread {tid} failed because of another thread: {e}'
@@ -340,6 +380,10 @@ def oracle(case, impl):
 
 
 def nontrivial(case, impl):
+  if case['dom'] == 'gin':
+    ops = case['ops']
+    return any(o['op'] == 'clear' and any(p['op'] == 'singleton' for p in ops[:i]) and
+               any(p['op'] == 'singleton' for p in ops[i + 1:]) for i, o in enumerate(ops))
   firsts = {}
   for tid, prog in enumerate(case['threads']):
     for act in prog:
@@ -354,6 +398,11 @@ def nontrivial(case, impl):
 
 
 def tally(stats, case, impl):
+  if case['dom'] == 'gin':
+    for op, res in zip(case['ops'], impl['out']):
+      k = 'seq:' + op['op'] + ':' + ('ok' if 'ok' in res else res['err'])
+      stats[k] = stats.get(k, 0) + 1
+    return
   stats['threads=%d' % len(case['threads'])] = stats.get('threads=%d' % len(case['threads']), 0) + 1
   stats['turns'] = stats.get('turns', 0) + len(case['schedule'])
   for prog in case['threads']:
@@ -362,6 +411,11 @@ def tally(stats, case, impl):
 
 
 def shrink(case):
+  if case['dom'] == 'gin':
+    ops = case['ops']
+    for k in range(len(ops) - 1, -1, -1):
+      yield {'dom': 'gin', 'ops': ops[:k] + ops[k + 1:]}
+    return
   for tid in range(len(case['threads'])):
     if len(case['threads']) > 2:
       ths = case['threads'][:tid] + case['threads'][tid + 1:]
